@@ -275,6 +275,9 @@ type c16Scen struct {
 func c16Chain(r *vk.RNG, decls []*model.Decl, abi gen.ABIOpts, emptyData bool) *simnode.Chain {
 	addrs := [][]byte{r.Bytes(20), r.Bytes(20)}
 	co := gen.ChainOpts{Seed: r.U64(), MinTxs: 2, MaxTxs: 3, MaxLogs: 4, MinTraces: 2, MaxTraces: 3}
+	if r.Bool() {
+		co.Rewards = 2 // trace_block ends with reward traces that name no transaction (seen only by trace shapes)
+	}
 	for _, d := range decls {
 		if d.Mode() == model.ModeLog {
 			t := gen.TargetMaker(d, addrs, abi)
